@@ -3,7 +3,7 @@
    NV.Bam.Decode (io/reader/record.rs, record/codec/decoder*.rs, slices of record_ref.rs),
    bin = NV.Index.Bins.reg2bin 14 5 (shared with C17). *)
 From Coq Require Import List NArith ZArith Bool Lia ZifyBool ZifyNat ZifyN.
-From NV Require Import Index.Bins Bam.Record Bam.Encode Bam.Decode Bam.Lazy Bam.CodecProofs Bam.AuxProofs Bam.LazyProofs Bam.LazyCigarProofs Bam.LazyDataProofs Bam.LazySwitchProofs Bam.File Bam.FileProofs Bam.FileBgzf Bam.FileBgzfProofs Bam.FileSchedProofs Bam.Reuse Bam.ReuseProofs.
+From NV Require Import Index.Bins Bam.Record Bam.Encode Bam.Decode Bam.Lazy Bam.CodecProofs Bam.AuxProofs Bam.LazyProofs Bam.LazyCigarProofs Bam.LazyDataProofs Bam.LazySwitchProofs Bam.LazyErr Bam.LazyErrProofs Bam.LazyErrIffProofs Bam.Subseq Bam.SubseqProofs Bam.RewriteProofs Bam.LazyRewrite Bam.LazyRewriteProofs Bam.File Bam.FileProofs Bam.FileBgzf Bam.FileBgzfProofs Bam.FileSchedProofs Bam.Reuse Bam.ReuseProofs.
 From NV Require Sam.Header Sam.HeaderProofs Sam.BamHeader Bgzf.Frame Bgzf.Writer Bgzf.Reader Bgzf.Inflate Io.Source Io.ReadExactProofs Io.Run.
 Import ListNotations.
 Open Scope N_scope.
@@ -545,3 +545,228 @@ Example c05_example_reuse :
     decode_into ex_rec_data body = Ok (mkRecord None 4 None None None [] None None 0%Z [] [] []) /\
     vresize (r_qual ex_rec_data) 0 = [] /\ r_qual ex_rec_data <> [].
 Proof. eexists. split; [vm_compute; reflexivity|]. split; [vm_compute; reflexivity|]. split; [reflexivity|discriminate]. Qed.
+
+(* ------------------------------------------------------------------------------------------
+   ERROR KINDS OF THE LAZY ACCESSORS (wave 9; model NV.Bam.LazyErr: the failing site decides the
+   io::ErrorKind, see the table at the head of that file).
+   (1) The kind-aware functions refine the kind-blind ones of NV.Bam.Lazy, so every earlier lazy
+       theorem (c05_lazy_data_eq_eager, c05_lazy_convert, ...) is a theorem about them. *)
+Theorem c05_lazy_kinds_refine :
+  (forall ty bs, lz_value ty bs = collapse (lz_value_k ty bs)) /\
+  (forall f bs, lz_fields f bs = (fst (lz_fields_k f bs), is_some (snd (lz_fields_k f bs)))) /\
+  (forall bs, lzp_data bs = option_map (fun p => (fst p, is_some (snd p))) (lzp_data_k bs)) /\
+  (forall fs e t, data_get (fs, is_some e) t = option_map collapse (data_get_k (fs, e) t)) /\
+  (forall bs, lazy_convert bs = option_map collapse (lazy_convert_k bs)).
+Proof.
+  split; [exact lz_value_collapse|]. split; [exact lz_fields_collapse|]. split; [exact lzp_data_collapse|].
+  split; [exact data_get_collapse|exact lazy_convert_collapse].
+Qed.
+Print Assumptions c05_lazy_kinds_refine.
+
+(* (2) The eager reader's error kinds: read_record_buf on one body fails with UnexpectedEof exactly
+       when validate() refuses the layout and with InvalidData exactly when the decoder refuses a
+       validated body; the decoder has no other kind. *)
+Theorem c05_eager_error_kind :
+  forall bs e, decode_record bs = Err e ->
+    (e = UnexpectedEof /\ validate bs = Err UnexpectedEof) \/
+    (e = InvalidData /\ validate bs = Ok tt /\ decode_body bs = Err InvalidData).
+Proof. exact decode_record_err. Qed.
+Print Assumptions c05_eager_error_kind.
+
+(* (3) lazy error => eager error, with kinds: on every body validate() accepts, if any lazy accessor
+       (reference_sequence_id, alignment_start, cigar().iter(), mate ids / positions, data().iter()
+       and hence data().get / try_from_alignment_record) returns an error, then the eager decoder
+       rejects the record with InvalidData; the lazy kind is InvalidData or UnexpectedEof (never
+       InvalidInput), and it is InvalidData for every accessor other than the data fields. *)
+Theorem c05_lazy_error_implies_eager_error :
+  forall bs k, validate bs = Ok tt -> lazy_first_error bs = Some k ->
+    decode_body bs = Err InvalidData /\ (k = InvalidData \/ k = UnexpectedEof).
+Proof. exact lazy_error_implies_eager_error. Qed.
+Print Assumptions c05_lazy_error_implies_eager_error.
+
+Theorem c05_lazy_head_error_kinds :
+  forall bs e, (lz_rid bs = Err e \/ lz_pos bs = Err e \/ lz_mrid bs = Err e \/ lz_mpos bs = Err e \/
+                lzp_cigar bs = Some (Err e)) -> e = InvalidData.
+Proof.
+  intros bs e [H|[H|[H|[H|H]]]];
+    [exact (lz_rid_err _ _ H)|exact (lz_pos_err _ _ H)|exact (lz_mrid_err _ _ H)|exact (lz_mpos_err _ _ H)|
+     exact (lzp_cigar_err _ _ H)].
+Qed.
+Print Assumptions c05_lazy_head_error_kinds.
+
+(* (4) The converse does NOT hold: the eager decoder has four checks the lazy accessors do not make
+       (l_read_name = 0, a name without its NUL terminator, a duplicate tag, a CG field that is not
+       B,I under the kSmN placeholder).  Witnesses for two of them: validated bodies the eager
+       decoder rejects although no lazy accessor errs.  That these four classes are the ONLY such
+       bodies is c05_lazy_error_iff below. *)
+Definition ex_head_nm (lname : N) : bytes :=
+  [255;255;255;255; 255;255;255;255; lname; 255; 72;18; 0;0; 4;0; 0;0;0;0;
+   255;255;255;255; 255;255;255;255; 0;0;0;0].
+Definition ex_dup_tag_body : bytes := ex_head_nm 2 ++ [42;0; 88;65;67;1; 88;65;67;2].
+Definition ex_name_no_nul_body : bytes := ex_head_nm 2 ++ [113;113].
+
+Theorem c05_eager_error_iff_lazy_error_refuted :
+  exists bs, validate bs = Ok tt /\ decode_body bs = Err InvalidData /\ lazy_first_error bs = None /\
+             exists r, lazy_convert_k bs = Some (Ok r).
+Proof. exists ex_dup_tag_body. vm_compute. repeat split; try reflexivity. eexists. reflexivity. Qed.
+Print Assumptions c05_eager_error_iff_lazy_error_refuted.
+
+Example c05_example_name_without_nul :
+  validate ex_name_no_nul_body = Ok tt /\ decode_body ex_name_no_nul_body = Err InvalidData /\
+  lazy_first_error ex_name_no_nul_body = None /\ lzp_name ex_name_no_nul_body = Some (Some [113;113]).
+Proof. vm_compute. repeat split; reflexivity. Qed.
+
+(* non-vacuity of (3) with both kinds: a data block cut inside a field (UnexpectedEof), a string
+   field without terminator (InvalidData) *)
+Example c05_example_lazy_error_kinds :
+  lazy_first_error (ex_head_nm 2 ++ [42;0; 88;65;105;1]) = Some UnexpectedEof /\
+  lazy_first_error (ex_head_nm 2 ++ [42;0; 88;65;90;65]) = Some InvalidData /\
+  lazy_first_error (ex_head_nm 2 ++ [42;0; 88;65;63;65]) = Some InvalidData /\
+  validate (ex_head_nm 2 ++ [42;0; 88;65;105;1]) = Ok tt.
+Proof. vm_compute. repeat split; reflexivity. Qed.
+
+(* (5) The exact relation (the full statement of target "lazy error <=> eager error"): on every body
+       validate() accepts, the eager decoder rejects the record (always with InvalidData) IF AND
+       ONLY IF some lazy accessor returns an error or the body is in one of the four eager-only
+       classes [eager_only_reject]: l_read_name = 0; the name bytes do not end in NUL; a tag occurs
+       twice among the fields Data::iter yields ([dup_tag] = not every tag is fresh w.r.t. the
+       fields before it); the CG resolution of decoder/cigar.rs::resolve fails on those fields.
+       The proof goes through decode_body_slices: on a validated body the eager decoder is a
+       function of the lazy slices, reading exactly the bytes the lazy accessors read. *)
+Theorem c05_lazy_error_iff :
+  forall bs, validate bs = Ok tt ->
+    (decode_body bs = Err InvalidData <-> (lazy_first_error bs <> None \/ eager_only_reject bs)).
+Proof. exact lazy_error_iff. Qed.
+Print Assumptions c05_lazy_error_iff.
+
+Theorem c05_eager_decode_by_slices :
+  forall bs, validate bs = Ok tt -> decode_body bs = decode_by_slices bs.
+Proof. exact decode_body_slices. Qed.
+Print Assumptions c05_eager_decode_by_slices.
+
+(* the typed lazy field decoder accepts exactly the values the eager one accepts, with the same
+   value and the same remaining bytes (both directions; the eager -> lazy half was wave 2) *)
+Theorem c05_lazy_value_iff_eager :
+  forall ty bs p, lz_value ty bs = Ok p <-> dec_value ty bs = Ok p.
+Proof. exact lz_dec_value_iff. Qed.
+Print Assumptions c05_lazy_value_iff_eager.
+
+(* non-vacuity of the eager-only classes: the duplicate-tag witness is in the third class, the
+   name-without-NUL witness in the second *)
+Example c05_example_eager_only_classes :
+  eager_only_reject ex_dup_tag_body /\ eager_only_reject ex_name_no_nul_body.
+Proof.
+  split.
+  - right; right; left. eexists. split; [vm_compute; reflexivity|].
+    intros H. vm_compute in H. destruct H as [_ [H _]]. discriminate H.
+  - right; left. exists InvalidData. vm_compute. reflexivity.
+Qed.
+
+(* (6) RecordBuf::try_from_alignment_record of a validated lazy record never panics; it fails exactly
+       when some lazy accessor errs, with the kind of the first such error in calling order, and
+       succeeds exactly when none does.  With (5): the conversion succeeds on a validated body iff
+       the eager decoder accepts it or the body is in an eager-only class. *)
+Theorem c05_lazy_convert_error_iff :
+  forall bs, validate bs = Ok tt ->
+    (forall k, lazy_convert_k bs = Some (Err k) <-> lazy_first_error bs = Some k) /\
+    ((exists r, lazy_convert_k bs = Some (Ok r)) <-> lazy_first_error bs = None) /\
+    lazy_convert_k bs <> None.
+Proof. exact lazy_convert_error_iff. Qed.
+Print Assumptions c05_lazy_convert_error_iff.
+
+(* ------------------------------------------------------------------------------------------
+   SHAPE OF Sequence::split_at_checked (wave 9; model NV.Bam.Subseq, panics included).  For a
+   sequence of [len] bases over a packed buffer of (len + 1) / 2 bytes: split_at_checked(mid) is
+   None exactly when mid > len; otherwise the halves are [0, mid) and [mid, len), their len() are
+   mid and len - mid (the usize subtraction never underflows), is_empty() accordingly, their
+   iterators concatenated yield exactly the bases of the whole sequence, and get(i) of each half is
+   base i / mid + i of the whole sequence (None beyond the half) without an index panic. *)
+Theorem c05_split_at_checked_shape :
+  forall packed len mid, lenN packed = (len + 1) / 2 ->
+    (split_at_checked len mid = None <-> len < mid) /\
+    forall l r, split_at_checked len mid = Some (l, r) ->
+      l = (0, mid) /\ r = (mid, len) /\
+      subseq_len l = Some mid /\ subseq_len r = Some (len - mid) /\
+      subseq_is_empty l = Some (mid =? 0) /\ subseq_is_empty r = Some (len - mid =? 0) /\
+      subseq_iter packed l ++ subseq_iter packed r = whole packed len /\
+      (forall i, subseq_get packed l i = Some (if i <? mid then nthN i (whole packed len) else None)) /\
+      (forall i, subseq_get packed r i = Some (if mid + i <? len then nthN (mid + i) (whole packed len) else None)).
+Proof. exact split_at_checked_shape. Qed.
+Print Assumptions c05_split_at_checked_shape.
+
+(* ... and every record validate() accepts is such a sequence: the packed slice sequence() views has
+   (l_seq + 1) / 2 bytes and [whole] of it is the lazily (= eagerly, c05_lazy_eq_eager) decoded
+   sequence *)
+Theorem c05_lazy_sequence_is_splittable :
+  forall bs, validate bs = Ok tt ->
+    lenN (lz_seq_raw bs) = (lz_lseq bs + 1) / 2 /\ whole (lz_seq_raw bs) (lz_lseq bs) = lz_seq bs.
+Proof.
+  intros bs Hv. pose proof (validate_ok bs Hv) as H. split; [|reflexivity].
+  unfold lz_seq_raw. apply lenN_sliceN. lia.
+Qed.
+Print Assumptions c05_lazy_sequence_is_splittable.
+
+Example c05_example_split :
+  split_at_checked 5 2 = Some ((0, 2), (2, 5)) /\ split_at_checked 5 6 = None /\
+  subseq_get (pack_bases [65; 67; 71; 84; 65]) (2, 5) 2 = Some (Some 65) /\
+  subseq_get (pack_bases [65; 67; 71; 84; 65]) (2, 5) 3 = Some None /\
+  subseq_len (3, 2) = None.
+Proof. vm_compute. repeat split; reflexivity. Qed.
+
+(* ------------------------------------------------------------------------------------------
+   RE-WRITING AN EAGERLY READ RECORD (wave 9).  write -> read_record_buf -> write reproduces the
+   block byte for byte, for every record the writer accepts: the encoder is blind to the
+   normalisation the decoder applies (encode (norm r) = encode r: the 4-bit base codes of the
+   case-folded / N-mapped bases are the codes of the original bases, the user CG field is skipped
+   by the encoder anyway, and a > 65535-operation CIGAR is stored through kSmN + CG again).
+   (The DIRECT re-write of a lazy bam::Record - encoder paths CigarRef::FourBytePacked,
+   SequenceRef::FourBitPacked, QualityScoresRef::Raw, DataRef::FieldEncoded - is not modelled;
+   it is checked by the implementation-side oracle of every `rec`/`rw` case only.) *)
+Theorem c05_rewrite_eager_identity :
+  forall nref r block,
+    wf r -> wf_data (r_data r) -> NoDup (map fst (r_data r)) ->
+    encode nref r = Ok block ->
+    exists r', decode block = Ok r' /\ encode nref r' = Ok block.
+Proof. exact rewrite_eager_identity. Qed.
+Print Assumptions c05_rewrite_eager_identity.
+
+Theorem c05_encode_blind_to_norm : forall nref r, encode nref (norm r) = encode nref r.
+Proof. exact encode_norm. Qed.
+Print Assumptions c05_encode_blind_to_norm.
+
+(* ------------------------------------------------------------------------------------------
+   THE DIRECT RE-WRITE OF A LAZY RECORD (wave 9; model NV.Bam.LazyRewrite.lazy_rewrite = the encoder
+   over bam::Record's borrowed views: packed CIGAR copied after the kind check, packed bases
+   copied, raw scores checked and copied, the raw data block copied after encoder/data.rs::validate,
+   head fields re-encoded from the lazy accessors, bin recomputed from alignment_start and the
+   lazily iterated CIGAR; for a CIGAR of more than 65535 operations: cigar() resolved from the CG
+   field, n_cigar_op = 2 with the kSmN placeholder re-derived, DataRef::Data = the lazy fields
+   without CG written one by one, CG:B,I appended again).  For EVERY record the writer accepts (any
+   data, any CIGAR length): the written body is accepted by validate() and re-writing the lazy
+   record over it gives the original block, byte for byte. *)
+Theorem c05_lazy_rewrite_identity :
+  forall nref r block,
+    wf r -> wf_data (r_data r) -> NoDup (map fst (r_data r)) ->
+    encode nref r = Ok block ->
+    exists body, block = leW 4 (lenN body) ++ body /\ validate body = Ok tt /\
+                 lazy_rewrite nref body = Some (Ok block).
+Proof. exact lazy_rewrite_identity_full. Qed.
+Print Assumptions c05_lazy_rewrite_identity.
+
+(* the data block the encoder writes always passes the field-encoded validator *)
+Theorem c05_written_data_passes_validator :
+  forall d bs f, enc_data d = Ok bs -> (length bs <= f)%nat -> fe_valid f bs = Ok tt.
+Proof. exact fe_valid_enc. Qed.
+Print Assumptions c05_written_data_passes_validator.
+
+(* non-vacuity: a mapped record with a name, 2 operations, 3 bases, scores and three typed fields
+   (one a B array, one a string) is written, and the re-write of its lazy view gives the same 4 + 70
+   bytes *)
+Definition ex_rw_rec : record :=
+  mkRecord (Some [114; 49]) 99 (Some 0) (Some 100) (Some 30) [(0, 2); (4, 1)] (Some 0) (Some 200) 150%Z
+           [65; 99; 78] [30; 31; 32]
+           [((78, 77), VNum tyC 1%Z); ((88, 66), VArr tys [-1; 2]%Z); ((88, 90), VStr tyZ [104; 105])].
+Example c05_example_lazy_rewrite :
+  exists block, encode 1 ex_rw_rec = Ok block /\ lazy_rewrite 1 (skipN 4 block) = Some (Ok block) /\
+    lenN block = 74.
+Proof. eexists. split; [vm_compute; reflexivity|]. split; vm_compute; reflexivity. Qed.
